@@ -455,7 +455,7 @@ theorem toLoggers_inv (cfg : Cfg) (f : Frame) : ∀ (ls : List Nat) {s : State},
 
 theorem sendAck_inv {cfg : Cfg} {s : State} (h : SubInv cfg s) (u : Nat) : SubInv cfg (sendAck cfg s u) := by
   unfold sendAck; split
-  · exact subInv_crash h _
+  · exact h
   · exact toLoggers_inv cfg _ _ (trySend_inv (tag_ack cfg) (fwdTop_ok cfg (tag_ack cfg)) (fwdTop_inv cfg) h u _)
 
 theorem subInv_misc {cfg : Cfg} {s : State} (h : SubInv cfg s) (s' : State) (hi : s'.idx = s.idx) (hm : s'.mods = s.mods) :
